@@ -20,7 +20,9 @@ type solverSpec struct {
 
 var solvers = []solverSpec{
 	{"z3-new 5.1.0", func(f string, t int) []string { return []string{"z3-new", fmt.Sprintf("-t:%d", t), f} }},
-	{"cvc5 1.0.3", func(f string, t int) []string { return []string{"cvc5", fmt.Sprintf("--tlimit=%d", t), "--incremental", f} }},
+	{"cvc5 1.0.3", func(f string, t int) []string {
+		return []string{"cvc5", fmt.Sprintf("--tlimit=%d", t), "--incremental", f}
+	}},
 	{"z3 4.8.12", func(f string, t int) []string { return []string{"z3", fmt.Sprintf("-t:%d", t), f} }},
 }
 
@@ -158,9 +160,14 @@ func renderObligation(ex *Exec, o *Obligation, wantModel bool) []string {
 			o.Status, o.Solver = "discharged", "syntactic"
 			return nil
 		}
-		asserts := append([]*Term{}, ex.hyps[:o.NHyps]...)
-		asserts = append(asserts, Not(g))
-		qs = append(qs, RenderQuery(asserts, o.ValTerms, ex.quant, "", wantModel))
+		ng := Not(g)
+		asserts := relevantHyps(ex.hyps[:o.NHyps], ng)
+		asserts = append(asserts, ng)
+		q := RenderQuery(asserts, o.ValTerms, ex.quant, "", wantModel)
+		if dn := os.Getenv("IKEVERIF_DUMPNAME"); dn != "" && strings.Contains(o.Name, dn) {
+			os.WriteFile(fmt.Sprintf("/tmp/dump_%d.smt2", len(qs)), []byte("; "+o.Name+"\n"+q), 0o644)
+		}
+		qs = append(qs, q)
 	}
 	return qs
 }
@@ -227,4 +234,64 @@ func solveAll(ex *Exec, obls []*Obligation, timeoutMs int, wantModel bool, worke
 	}
 	close(ch)
 	wg.Wait()
+}
+
+// relevantHyps drops quantified hypotheses whose trigger symbols (functions applied
+// to a bound variable) do not occur in the goal: they cannot contribute an
+// instance and only slow the solvers down.
+func relevantHyps(hyps []*Term, goal *Term) []*Term {
+	hasQ := false
+	for _, h := range hyps {
+		if h.op == "forall" {
+			hasQ = true
+			break
+		}
+	}
+	if !hasQ {
+		return append([]*Term{}, hyps...)
+	}
+	syms := map[string]bool{}
+	seen := map[int]bool{}
+	var walk func(t *Term)
+	walk = func(t *Term) {
+		if seen[t.id] {
+			return
+		}
+		seen[t.id] = true
+		if t.op == "app" {
+			syms[t.name] = true
+		}
+		for _, a := range t.args {
+			walk(a)
+		}
+	}
+	walk(goal)
+	var out []*Term
+	for _, h := range hyps {
+		if h.op != "forall" {
+			out = append(out, h)
+			continue
+		}
+		rel := false
+		s2 := map[int]bool{}
+		var w2 func(t *Term)
+		w2 = func(t *Term) {
+			if s2[t.id] || rel || !containsBound(t) {
+				return
+			}
+			s2[t.id] = true
+			if t.op == "app" && syms[t.name] {
+				rel = true
+				return
+			}
+			for _, a := range t.args {
+				w2(a)
+			}
+		}
+		w2(h.args[0])
+		if rel {
+			out = append(out, h)
+		}
+	}
+	return out
 }
